@@ -320,7 +320,7 @@ def run_for(run, pid):
                 res["mutants"]["inconclusive"] += 1
             else:
                 res["mutants"]["survived"] += 1
-                if len(res["mutants"]["survivors"]) < 12:
+                if len(res["mutants"]["survivors"]) < 40:
                     res["mutants"]["survivors"].append(desc)
     missed = sorted(d for d, rc in res["must_fire"].items() if rc != 1)
     alarms = sorted(d for d, rc in res["must_stay_silent"].items() if rc == 1)
@@ -332,6 +332,11 @@ def run_for(run, pid):
     res["note"] = ("mutants are generated blindly by AST operators on the anchored functions; survivors include equivalent mutants "
                    "(e.g. changes behind a guard the rule decides, constants in messages) and changes outside the decided clauses")
     run.selftest = res
+    if not os.environ.get("PBVERIF_NOEVIDENCE"):
+        rep_dir = os.path.join(VERIF, "selftest_reports")
+        os.makedirs(rep_dir, exist_ok=True)
+        with open(os.path.join(rep_dir, f"{pid}.json"), "w") as fh:
+            json.dump(res, fh, indent=1)
     # rewrite the evidence file with the self-test summary included
     if not os.environ.get("PBVERIF_NOEVIDENCE"):
         nviol = 0
